@@ -15,14 +15,22 @@ import DryocVerif.Proofs.BoxOpenRawExtra
 import DryocVerif.Proofs.PwhashVerifyExtra
 import DryocVerif.Proofs.SignVectors
 import DryocVerif.Proofs.ObjectViewExtra
+import DryocVerif.Proofs.ObjectViewStreamExtra
 /-
 C04 — no attacker-facing function panics.
 
 Every function that consumes bytes an attacker controls (ciphertexts, sealed boxes, signed messages,
 password-hash strings, serialised containers), for ALL inputs and every instantiation of the
 primitives, returns `Ok` or `Err`; where a classic (caller-buffer) form CAN panic, the exact
-condition is stated (`*_panic_iff`) and it is a condition on the CALLER's buffer only — checked before
-any attacker byte is looked at.
+condition is stated (`*_panic_iff`).  That condition is decided before any attacker BYTE is looked at, but it is NOT a
+condition on the caller's buffer alone: it is JOINT in the caller's buffer length and the attacker-chosen ciphertext
+LENGTH (`openEasy_panic_iff`: `16 ≤ ct.len() ∧ buf.len() < ct.len() − 16`).  A receiver that keeps a FIXED-size message
+buffer and passes whatever arrives to `crypto_secretbox_open_easy` / `_open_detached` / `crypto_box_open_easy` /
+`_open_detached` / `_open_detached_afternm` can be made to panic by anyone who can send a longer ciphertext
+(`*_fixed_buffer_attackable`, corrected after the third review: the sentence used to read "a condition on the CALLER's
+buffer only"); such a receiver must compare the lengths itself.  `crypto_box_seal_open` and the stream `pull` return
+`Err` in the same situation (`C02.wrong_size_rejected_sealOpen`, `C03.small_buffer_rejected`), and the in-place and
+object forms have no separate buffer.
 
 * secretstream `pull` / `push` / `DryocStream`: proved here;
 * secretbox / box / sealed box / object layer: re-exported from C02 (statements written out);
@@ -58,6 +66,18 @@ fixed-length arguments (authenticator, signature, key, nonce) as any `ByteArray<
 authenticator / signature / key is a PANIC (and a too long one is silently truncated).  The models the theorems
 above speak about (`objDecrypt`, `verifyDetached`, `hmacVerify`, `onetimeauthVerify`, …) take the arguments at
 their exact length, which is what every container whose TYPE carries the length guarantees.
+The same holds for STREAMS (third review): `DryocStream::init_pull(key, header)` / `init_push(key)` take the key and the
+header through `as_array` — with a `Vec<u8>` / `&[u8]` a header shorter than 24 or a key shorter than 32 bytes is a PANIC,
+longer ones are silently truncated (`objInitPullView_panic_iff`, `objInitPullView_ignores_tail`, `…_exact`;
+`Model/ObjectViewStream.lean`); `initState`, the model of the theorems of C03, takes them at their exact length.
+A header arrives from the peer, so with a `Vec<u8>` header type this panic is reachable from attacker-controlled bytes
+unless the application checks `header.len() == 24` first.
+SECOND OBSERVATION (third review): `impl From<u8> for Tag` is `Tag::from_bits(b).expect(..)` and panics for every byte
+`b ≥ 4` (`tagFromU8_panic_iff`).  Fix E6 removed that expression from `DryocStream::pull` only.  The CLASSIC `pull`
+hands its caller the raw tag byte; an AUTHENTIC message whose sender set a bit outside the four defined tags makes a
+caller that converts it with `Tag::from(tag)` panic (`classic_pull_then_tagFrom_panics`).  The conversion is the
+caller's act, not an opening function, so no never-panic theorem of this file is contradicted; it is stated so that
+they are not read as covering it.
 -/
 namespace DryocVerif.Properties.C04
 open DryocVerif
@@ -118,7 +138,8 @@ theorem objPull_never_panics (P : Model.SecretStream.Prims) (s : Model.SecretStr
 
 The four forms that take a separate message buffer panic (slice bounds) exactly when THAT buffer is
 too small for the ciphertext's payload; this is decided before the authenticator is looked at and does
-not depend on any ciphertext byte, only on its length.  In-place and sealed forms cannot panic. -/
+not depend on any ciphertext byte, only on its LENGTH — which the sender chooses: for a fixed buffer there always is
+a ciphertext length that panics (`*_fixed_buffer_attackable` below).  In-place and sealed forms cannot panic. -/
 
 section Box
 open DryocVerif.Model.SecretBox
@@ -181,6 +202,66 @@ theorem boxOpenEasyInplace_never_panics (P : Prims) (ct n pk sk : Bytes) :
 theorem sealOpen_never_panics (P : Prims) (buf ct rpk rsk : Bytes) :
     (sealOpen P buf ct rpk rsk).res ≠ .panic :=
   C02.sealOpen_never_panics P buf ct rpk rsk
+
+/-! ### a fixed-size message buffer is attackable (third review)
+
+The panic condition of the open forms with a separate buffer is joint in the buffer length and the CIPHERTEXT length.
+For every buffer — in particular a receiver's fixed-size one — whoever controls the wire can choose a ciphertext that is
+one byte too long for it; the function panics before looking at a single byte of it.  No key is needed. -/
+
+/-- `crypto_secretbox_open_easy`: for EVERY message buffer, nonce and key there is a ciphertext — 17 bytes longer than
+the buffer, content irrelevant — on which the function panics -/
+theorem openEasy_fixed_buffer_attackable (P : Prims) (buf n k : Bytes) :
+    ∃ ct : Bytes, ct.length = buf.length + 17 ∧ (openEasy P buf ct n k).res = .panic :=
+  ⟨zeros (buf.length + 17), by simp [zeros],
+    (C02.openEasy_panic_iff P buf _ n k).mpr (by simp only [zeros, List.length_replicate]; omega)⟩
+
+/-- … every ciphertext of that length does it (the content is never looked at) -/
+theorem openEasy_fixed_buffer_attackable_all (P : Prims) (buf ct n k : Bytes) (h : buf.length + 17 ≤ ct.length) :
+    (openEasy P buf ct n k).res = .panic :=
+  (C02.openEasy_panic_iff P buf ct n k).mpr (by omega)
+
+/-- `crypto_secretbox_open_detached` (any authenticator): a ciphertext one byte longer than the buffer -/
+theorem openDetached_fixed_buffer_attackable (P : Prims) (buf mac n k : Bytes) :
+    ∃ c : Bytes, c.length = buf.length + 1 ∧ (openDetached P buf mac c n k).res = .panic :=
+  ⟨zeros (buf.length + 1), by simp [zeros],
+    (C02.openDetached_panic_iff P buf mac _ n k).mpr (by simp only [zeros, List.length_replicate]; omega)⟩
+
+/-- `crypto_box_open_easy` -/
+theorem boxOpenEasy_fixed_buffer_attackable (P : Prims) (buf n pk sk : Bytes) :
+    ∃ ct : Bytes, ct.length = buf.length + 17 ∧ (boxOpenEasy P buf ct n pk sk).res = .panic :=
+  ⟨zeros (buf.length + 17), by simp [zeros],
+    (C02.boxOpenEasy_panic_iff P buf _ n pk sk).mpr (by simp only [zeros, List.length_replicate]; omega)⟩
+
+/-- `crypto_box_open_detached` -/
+theorem boxOpenDetached_fixed_buffer_attackable (P : Prims) (buf mac n pk sk : Bytes) :
+    ∃ c : Bytes, c.length = buf.length + 1 ∧ (boxOpenDetached P buf mac c n pk sk).res = .panic :=
+  ⟨zeros (buf.length + 1), by simp [zeros],
+    (C02.boxOpenDetached_panic_iff P buf mac _ n pk sk).mpr (by simp only [zeros, List.length_replicate]; omega)⟩
+
+/-- `crypto_box_open_detached_afternm` (precomputed key) -/
+theorem boxOpenDetachedAfternm_fixed_buffer_attackable (P : Prims) (buf mac n k : Bytes) :
+    ∃ c : Bytes, c.length = buf.length + 1 ∧ (boxOpenDetachedAfternm P buf mac c n k).res = .panic :=
+  ⟨zeros (buf.length + 1), by simp [zeros],
+    (C02.boxOpenDetachedAfternm_panic_iff P buf mac _ n k).mpr (by simp only [zeros, List.length_replicate]; omega)⟩
+
+/-- … whereas `crypto_box_seal_open` and the stream `pull` answer the same situation (attacker-chosen length, fixed
+buffer) with `Err`: the sealed-box open demands the EXACT buffer size, the stream pull a sufficient one -/
+theorem sealOpen_and_pull_fixed_buffer_err (P : Prims) (buf ct rpk rsk : Bytes) (h : buf.length + 48 < ct.length)
+    (Q : Model.SecretStream.Prims) (s : Model.SecretStream.State) (tagv : UInt8) (ct' ad : Bytes)
+    (h' : buf.length + 17 < ct'.length) :
+    sealOpen P buf ct rpk rsk = ⟨.err, buf⟩ ∧ (Model.SecretStream.pull Q s buf tagv ct' ad).res = .err :=
+  ⟨C02.wrong_size_rejected_sealOpen P buf ct rpk rsk (by omega),
+   C03.small_buffer_rejected Q s buf tagv ct' ad (by omega)⟩
+
+/-- non-vacuity of `sealOpen_and_pull_fixed_buffer_err`: a 3-byte buffer, a 52-byte sealed box, a 21-byte stream
+ciphertext -/
+example : ([4, 4, 4] : Bytes).length + 48 < (zeros 52).length ∧ ([4, 4, 4] : Bytes).length + 17 < (zeros 21).length := by
+  decide
+
+/-- witness (evaluated): a 3-byte buffer and 20 arbitrary bytes -/
+example : (openEasy Proofs.SecretBox.toyPrims [4, 4, 4] (List.replicate 20 1) Proofs.SecretBox.toyNonce
+    Proofs.SecretBox.toyKey).res = .panic := by decide
 
 /-! ## object layer: parsing and decrypting attacker bytes never panics -/
 
@@ -491,7 +572,10 @@ theorem pushRaw_never_panics (P : Prims) (hP : Proofs.SecretStream.WF P) (s : St
   Proofs.SecretStream.pushRaw_never_panics P hP s ct msg ad tag hm
 
 /-- … and the slice hypothesis is exactly what is needed: the only panic branch of the model that remains reachable
-(for LISTS; no Rust slice is that long) is the `usize` overflow of `message.len() + ABYTES` -/
+(for LISTS; no Rust slice is that long) is the `usize` overflow of `message.len() + ABYTES`.  For a REAL slice this
+branch cannot occur: a Rust slice has `len() ≤ isize::MAX = 2^63 − 1` bytes, so `message.len() + 17 < 2^64` always and
+`checkedAdd msg.length ABYTES` never takes its panic branch — the right-hand side describes lists the model allows and
+the language does not. -/
 theorem pushRaw_panic_iff (P : Prims) (hP : Proofs.SecretStream.WF P) (s : State) (ct msg ad : Bytes) (tag : UInt8) :
     pushRaw P s ct msg ad tag = .panic ↔ 2 ^ 64 ≤ msg.length + 17 :=
   Proofs.SecretStream.pushRaw_panic_iff P hP s ct msg ad tag
@@ -1295,6 +1379,112 @@ example :
     objDecryptView P ⟨none, List.replicate 16 2, [1, 2]⟩ (zeros 23) (zeros 32) = .panic := by
   decide
 
+/-! ### streams: `init_pull` / `init_push` with a `Vec<u8>` / `&[u8]` key or header; `Tag::from(u8)` (third review) -/
+
+section StreamView
+open DryocVerif.Model.ObjectViewStream DryocVerif.Model.SecretStream
+
+/-- **`DryocStream::init_pull(key, header)` with variable-length containers** panics IFF the header holds fewer than 24
+bytes or the key fewer than 32 (the two `as_array` assertions); it never returns an error (the function has no
+`Result`) -/
+theorem objInitPullView_panic_iff (P : Model.SecretStream.Prims) (key header : Bytes) :
+    objInitPullView P key header = .panic ↔ header.length < 24 ∨ key.length < 32 :=
+  Proofs.ObjectViewStream.objInitPullView_panic_iff P key header
+
+theorem objInitPullView_ne_err (P : Model.SecretStream.Prims) (key header : Bytes) :
+    objInitPullView P key header ≠ .err :=
+  Proofs.ObjectViewStream.objInitPullView_ne_err P key header
+
+/-- the model's `if` is the two `as_array` views of `Model/ArrayView.lean`, header first -/
+theorem objInitPullView_eq_view (P : Model.SecretStream.Prims) (key header : Bytes) :
+    objInitPullView P key header = objInitPullViewCode P key header :=
+  Proofs.ObjectViewStream.objInitPullView_eq_view P key header
+
+/-- over-long containers are silently truncated: whatever follows the 24th header byte and the 32nd key byte is
+ignored (two different over-long keys with the same 32-byte prefix open the same stream) -/
+theorem objInitPullView_ignores_tail (P : Model.SecretStream.Prims) (key header kt ht : Bytes)
+    (hh : header.length = 24) (hk : key.length = 32) :
+    objInitPullView P (key ++ kt) (header ++ ht) = .ok (initState P header key) :=
+  Proofs.ObjectViewStream.objInitPullView_ignores_tail P key header kt ht hh hk
+
+/-- **with exact lengths the view is the identity** and `init_pull` is the `initState` of C03's theorems (so those are
+about the code whenever the container TYPE carries the length) -/
+theorem objInitPullView_exact (P : Model.SecretStream.Prims) (key header : Bytes)
+    (hh : header.length = 24) (hk : key.length = 32) :
+    objInitPullView P key header = .ok (initState P header key) :=
+  Proofs.ObjectViewStream.objInitPullView_exact P key header hh hk
+
+/-- `DryocStream::init_push(key)`: the key view alone (the header is created by the function) -/
+theorem objInitPushView_panic_iff (P : Model.SecretStream.Prims) (key hdr : Bytes) :
+    objInitPushView P key hdr = .panic ↔ key.length < 32 :=
+  Proofs.ObjectViewStream.objInitPushView_panic_iff P key hdr
+
+theorem objInitPushView_ignores_tail (P : Model.SecretStream.Prims) (key hdr kt : Bytes) (hk : key.length = 32) :
+    objInitPushView P (key ++ kt) hdr = .ok (initState P hdr key, hdr) :=
+  Proofs.ObjectViewStream.objInitPushView_ignores_tail P key hdr kt hk
+
+theorem objInitPushView_exact (P : Model.SecretStream.Prims) (key hdr : Bytes) (hk : key.length = 32) :
+    objInitPushView P key hdr = .ok (initState P hdr key, hdr) :=
+  Proofs.ObjectViewStream.objInitPushView_exact P key hdr hk
+
+/-- non-vacuity / witnesses (evaluated): a 23-byte header panics, a 31-byte key panics, a 25-byte header and a
+33-byte key give the state of their prefixes -/
+example :
+    let P : Model.SecretStream.Prims := ⟨fun _ _ _ l => zeros l, fun k _ => k, fun _ _ => zeros 16⟩
+    objInitPullView P (zeros 32) (zeros 23) = .panic ∧
+    objInitPullView P (zeros 31) (zeros 24) = .panic ∧
+    objInitPullView P (zeros 32 ++ [7]) (zeros 24 ++ [9]) = .ok (initState P (zeros 24) (zeros 32)) ∧
+    objInitPullView P (zeros 32) (zeros 24) = .ok (initState P (zeros 24) (zeros 32)) := by
+  decide
+
+/-- **`impl From<u8> for Tag`** (`Self::from_bits(other).expect("Unable to parse tag")`) panics IFF the byte has a bit
+outside `MESSAGE | PUSH | REKEY | FINAL` -/
+theorem tagFromU8_panic_iff (b : UInt8) : tagFromU8 b = .panic ↔ b &&& 0xFC ≠ 0 :=
+  Proofs.ObjectViewStream.tagFromU8_panic_iff b
+
+/-- … i.e. for every byte `≥ 4`; the four defined tags convert to themselves -/
+theorem tagFromU8_panic_iff_ge (b : UInt8) : tagFromU8 b = .panic ↔ 4 ≤ b.toNat :=
+  Proofs.ObjectViewStream.tagFromU8_panic_iff_ge b
+
+theorem tagFromU8_ok_iff (b : UInt8) : tagFromU8 b = .ok b ↔ b &&& 0xFC = 0 :=
+  Proofs.ObjectViewStream.tagFromU8_ok_iff b
+
+/-- **OBSERVATION, composed.**  An AUTHENTIC message pushed with a tag byte that has an undefined bit (the classic
+`push` accepts any `u8`) is accepted by the classic `pull` as written, which hands the caller that raw byte; the
+caller's `Tag::from(tag)` then panics.  The conversion is the caller's act — `pullRaw_never_panics` stands — and
+`DryocStream::pull` (`from_bits_retain`, fix E6) returns the byte retained (`objPullOld_panics_iff` is the pre-fix
+behaviour). -/
+theorem classic_pull_then_tagFrom_panics (P : Model.SecretStream.Prims) (hP : Proofs.SecretStream.WF P)
+    (s : State) (m ad : Bytes) (tag : UInt8) (c : Bytes) (s' : State)
+    (h : push P s (m.length + 17) m ad tag = .ok (c, s'))
+    (hm : m.length ≤ STREAM_BODY_MAX) (htag : tag &&& 0xFC ≠ 0)
+    (buf : Bytes) (tagv : UInt8) (hb : m.length ≤ buf.length) :
+    (pullRaw P s buf tagv c ad).res = .ok m.length ∧ (pullRaw P s buf tagv c ad).tag = tag ∧
+    tagFromU8 (pullRaw P s buf tagv c ad).tag = .panic :=
+  Proofs.ObjectViewStream.classic_pull_then_tagFrom_panics P hP s m ad tag c s' h hm htag buf tagv hb
+
+/-- the witness, evaluated (toy primitives, tag byte 4): push → classic `pull` `Ok` with tag 4 → `Tag::from(4)`
+panics; `DryocStream::pull` on the same ciphertext returns `(message, 4)` -/
+theorem classic_pull_tag4_example :
+    ∃ c s', push Proofs.SecretStream.toyPrims Proofs.SecretStream.toyState 20 [0x41, 0x42, 0x43] [] 4 = .ok (c, s') ∧
+      (pullRaw Proofs.SecretStream.toyPrims Proofs.SecretStream.toyState (zeros 3) 0 c []).res = .ok 3 ∧
+      (pullRaw Proofs.SecretStream.toyPrims Proofs.SecretStream.toyState (zeros 3) 0 c []).tag = 4 ∧
+      tagFromU8 (pullRaw Proofs.SecretStream.toyPrims Proofs.SecretStream.toyState (zeros 3) 0 c []).tag = .panic ∧
+      (objPullCode Proofs.SecretStream.toyPrims Proofs.SecretStream.toyState c []).1
+        = .ok ([0x41, 0x42, 0x43], 4) :=
+  Proofs.ObjectViewStream.classic_pull_tag4_example
+
+example : (4 : UInt8) &&& 0xFC ≠ 0 := by decide
+
+/-- non-vacuity of `classic_pull_then_tagFrom_panics`: every hypothesis on C03's toy instance (which meets `WF`),
+tag byte 4 at the wrapping counter — and the theorem applied -/
+example : ∃ c s', push C03.toyP C03.toyS 18 [0x41] [0x42] 4 = .ok (c, s') ∧
+    tagFromU8 (pullRaw C03.toyP C03.toyS [9, 9, 9] 7 c [0x42]).tag = .panic :=
+  ⟨_, _, rfl, (classic_pull_then_tagFrom_panics C03.toyP C03.toyP_wf C03.toyS [0x41] [0x42] 4 _ _ rfl
+    (by decide) (by decide) [9, 9, 9] 7 (by decide)).2.2⟩
+
+end StreamView
+
 end ObjectViewObservation
 
 end DryocVerif.Properties.C04
@@ -1312,6 +1502,26 @@ open DryocVerif.Properties.C04
 #print axioms objBoxDecryptView_cases
 #print axioms objUnsealView_cases
 #print axioms objectView_exact
+#print axioms openEasy_fixed_buffer_attackable
+#print axioms openEasy_fixed_buffer_attackable_all
+#print axioms openDetached_fixed_buffer_attackable
+#print axioms boxOpenEasy_fixed_buffer_attackable
+#print axioms boxOpenDetached_fixed_buffer_attackable
+#print axioms boxOpenDetachedAfternm_fixed_buffer_attackable
+#print axioms sealOpen_and_pull_fixed_buffer_err
+#print axioms objInitPullView_panic_iff
+#print axioms objInitPullView_ne_err
+#print axioms objInitPullView_eq_view
+#print axioms objInitPullView_ignores_tail
+#print axioms objInitPullView_exact
+#print axioms objInitPushView_panic_iff
+#print axioms objInitPushView_ignores_tail
+#print axioms objInitPushView_exact
+#print axioms tagFromU8_panic_iff
+#print axioms tagFromU8_panic_iff_ge
+#print axioms tagFromU8_ok_iff
+#print axioms classic_pull_then_tagFrom_panics
+#print axioms classic_pull_tag4_example
 #print axioms pullRaw_eq_pullChecked
 #print axioms pullRaw_eq_pull
 #print axioms pullRaw_err_near_max
